@@ -154,7 +154,7 @@ var fixedSpec = hcldec.ObjectSpec{
 		"n2": &hcldec.BlockLabelSpec{Index: 1, Name: "n2"},
 		"a":  &hcldec.AttrSpec{Name: "a", Type: cty.DynamicPseudoType},
 	}},
-	"foo": &hcldec.BlockAttrsSpec{TypeName: "foo", ElementType: cty.DynamicPseudoType},
+	"foo": &hcldec.BlockAttrsSpec{TypeName: "foo", ElementType: cty.String}, // (a dynamic element type is not a legal map element type: cty.MapVal panics on mixed values)
 }
 
 // derivedSpec is the permissive spec: every attribute that is present is accepted with
